@@ -50,8 +50,8 @@ func (w *histWorldT) calls() []call {
 		call{neo, "totalSupply", nil}, call{gas, "totalSupply", nil}, call{pol, "getFeePerByte", nil}, call{pol, "getStoragePrice", nil},
 		call{pol, "getExecFeeFactor", nil}, call{pol, "isBlocked", []any{w.gen.Accts[0].ScriptHash()}})
 	for _, kv := range w.gen.AllKVs {
-		for _, p := range [][]byte{{}, {0x01}, {0x01, 0x02}, {0xff}} {
-			for _, o := range []int64{0, 1, 1 | 2, 128, 4} {
+		for _, p := range [][]byte{{}, {0x01}} {
+			for _, o := range []int64{0, 1 | 2, 128} {
 				out = append(out, call{kv, "find", []any{p, o}})
 			}
 		}
@@ -298,7 +298,13 @@ func (w *histWorldT) observe(n *node, at uint32) {
 			if hi == 0 {
 				o.findStorage(n, s, via, pfx, h, false, util.Uint256{}, hash, it.ID, w.nameOf[it.ID], prefix, r.Intn(4))
 			}
-			if k == 0 && n.retained(h) {
+			nitems := 0
+			for _, x := range rh.flat {
+				if x.ID == it.ID {
+					nitems++
+				}
+			}
+			if (k == 0 || k == 2) && n.retained(h) && nitems <= 40 {
 				// whole-contract walks in both protocols
 				o.walkFrom(n, n.srvs[1], h, root, hash, it.ID, nil, 1+r.Intn(3), 400, nil)
 				o.walkIndex(n, n.srvs[1], h, true, root, hash, it.ID, w.nameOf[it.ID], nil, 400, nil)
@@ -320,10 +326,12 @@ func (w *histWorldT) observe(n *node, at uint32) {
 		o.getProof(n, s, h, root, ghost, gid, []byte{0x01})
 		// historic invocations, the height given as index, block hash and state root
 		if hi > 0 || n.keep != "latest" {
-			for _, how := range []string{"index", "hash", "root"} {
-				if hi == 0 || r.Intn(2) == 0 {
-					o.invokeHistoric(n, s, h, how, rh.bhash, rh.root, rh.calls)
-				}
+			hows := []string{"index", "hash", "root"}
+			if hi > 0 {
+				hows = hows[r.Intn(3):][:1]
+			}
+			for _, how := range hows {
+				o.invokeHistoric(n, s, h, how, rh.bhash, rh.root, rh.calls)
 			}
 		}
 	}
